@@ -27,13 +27,25 @@ class History(_KernelObject):
 
 class TornFileIO(io.FileIO):
     """A raw file whose write() is short: the first part now, the rest in the next call (the
-    buffered layer retries), with a scheduling point in between."""
+    buffered layer retries), with a scheduling point in between.  Optionally the k-th raw write
+    of one chosen file fails with EIO / ENOSPC (once, or from then on)."""
     kernel = None
+    torn = False
+    fail = None          # {"suffix": "_<writer>", "at": k, "persistent": bool}
+    writes = {}
 
     def write(self, b):
         k = TornFileIO.kernel
+        f = TornFileIO.fail
+        if f is not None and str(self.name).endswith(f["suffix"]):
+            c = TornFileIO.writes.get(self.name, 0) + 1
+            TornFileIO.writes[self.name] = c
+            if c == f["at"] or (f["persistent"] and c > f["at"]):
+                k.fault("write-error-persistent" if f["persistent"] else "write-error-transient")
+                import errno
+                raise OSError(errno.ENOSPC if f["persistent"] else errno.EIO, "injected write error")
         n = len(b)
-        if n >= 2:
+        if TornFileIO.torn and n >= 2:
             half = n // 2
             w = super().write(bytes(b[:half]))
             k.fault("torn-write")
@@ -97,6 +109,17 @@ def build_plan(choice: Choice, tier):
         pops.append(["get", d(universe, "parent.id")] if kind <= 1 else (["len"] if kind == 2 else ["list"]))
     p["parent_script"] = pops
     p["torn"] = d(3, "torn") == 2
+    # fault family: a store whose text cannot be encoded, and/or a failing disk under one writer
+    p["write_fault"] = None
+    wf = d(8, "write.fault")
+    if wf >= 6:
+        p["write_fault"] = {"suffix": f"_{d(p['writers'], 'write.fault.writer')}", "at": 1 + d(4, "write.fault.at"),
+                            "persistent": wf == 7}
+    if d(8, "unencodable") == 7:
+        cands = [(w, i) for w, sc in enumerate(scripts) for i, o in enumerate(sc) if not o[2].endswith("-dup")]
+        if cands:
+            w, i = cands[d(len(cands), "unencodable.which")]
+            scripts[w][i][2] = scripts[w][i][2][:8] + "\udcff-unencodable"
     p["granularity"] = "line" if d(6, "granularity") != 5 else "sync"
     p["n"] = n
     return p
@@ -122,6 +145,11 @@ def run_script(k, storage, script, hist, who):
                 try:
                     storage[op[1]] = op[2]
                     hist.add(who=who, kind="store", g=op[1], text=op[2], a=a, b=k.step, ok=True)
+                except UnicodeEncodeError:
+                    k.fault("unencodable-text")
+                    hist.add(who=who, kind="store", g=op[1], text=op[2], a=a, b=k.step, ok=None)
+                except OSError:
+                    hist.add(who=who, kind="store", g=op[1], text=op[2], a=a, b=k.step, ok=None)
                 except ValueError:
                     hist.add(who=who, kind="store", g=op[1], text=op[2], a=a, b=k.step, ok=False)
             elif kind == "get":
@@ -152,8 +180,10 @@ def scenario(k: Kernel, plan, obs):
 
     st.multiprocessing = MP
     tmp = obs["tmpdir"]
-    if plan["torn"]:
+    if plan["torn"] or plan["write_fault"]:
         TornFileIO.kernel = k
+        TornFileIO.torn = plan["torn"]
+        TornFileIO.fail = plan["write_fault"]
         real_open = open
 
         def sim_open(path, mode="r", *a, **kw):
@@ -180,8 +210,16 @@ def scenario(k: Kernel, plan, obs):
         def run(self):
             if not self.writer:
                 self.storage.reader_only = True
-            with self.storage:
+            self.storage.open()
+            try:
                 run_script(k, self.storage, self.script, hist, self.who)
+            finally:
+                try:
+                    self.storage.close()
+                except OSError:
+                    # flushing the data of a failed store fails again on a broken disk
+                    if not plan["write_fault"]:
+                        raise
 
     procs = [Actor(storage, s, f"w{i}", True) for i, s in enumerate(plan["writer_scripts"])]
     procs += [Actor(storage, s, f"r{i}", False) for i, s in enumerate(plan["reader_scripts"])]
@@ -236,6 +274,10 @@ def evaluate(plan, obs, k, kind, info):
     ops = hist.ops if hist else []
     stores = [o for o in ops if o["kind"] == "store" and "error" not in o]
     winners = {}
+    failed = {}
+    for o in stores:
+        if o["ok"] is None:
+            failed.setdefault(o["g"], []).append(o)
     for o in stores:
         if o["ok"]:
             if o["g"] in winners:
@@ -244,10 +286,10 @@ def evaluate(plan, obs, k, kind, info):
             else:
                 winners[o["g"]] = o
     for o in stores:
-        if not o["ok"] and o["g"] not in winners and kind == "complete":
+        if o["ok"] is False and o["g"] not in winners and o["g"] not in failed and kind == "complete":
             viol.append({"class": "duplicate-store", "site": "valueerror-without-winner",
                          "message": f"store of id {o['g']} raised ValueError although nothing is stored under it"})
-        if o["ok"] is False:
+        if not o["ok"]:
             continue
         # a store that started after a winner completed must have failed
         w = winners.get(o["g"])
@@ -279,7 +321,11 @@ def evaluate(plan, obs, k, kind, info):
                                             f"step {[s['b'] for s in cands if s['ok']]} < {o['a']}"})
             else:
                 exp = text(g)
-                if exp is None and kind != "complete":
+                if exp is None and g in failed:
+                    # only failed stores of g: the read may find nothing or exactly a text that was being stored
+                    if o["res"] not in [s["text"] for s in failed[g]]:
+                        viol.append(wrong_read(o, g, "?", cands))
+                elif exp is None and kind != "complete":
                     # winner may be unknown yet when the run did not complete; compare with any attempt
                     if o["res"] not in [s["text"] for s in cands]:
                         viol.append(wrong_read(o, g, "?", cands))
@@ -287,7 +333,7 @@ def evaluate(plan, obs, k, kind, info):
                     viol.append(wrong_read(o, g, exp, cands))
         elif o["kind"] == "len":
             lo = len({s["g"] for s in stores if s["ok"] and s["b"] < o["a"]})
-            hi = len({s["g"] for s in stores if s["a"] <= o["b"]})
+            hi = len({s["g"] for s in stores if s["a"] <= o["b"] and s["ok"] is not False})
             if not (lo <= o["res"] <= hi):
                 viol.append({"class": "wrong-len", "site": "concurrent",
                              "message": f"{o['who']} len()={o['res']} outside [{lo},{hi}] (steps {o['a']}..{o['b']})"})
@@ -296,7 +342,7 @@ def evaluate(plan, obs, k, kind, info):
             may = {s["g"] for s in stores if s["a"] <= o["b"]}
             back = {}
             for s in stores:
-                if s["ok"]:
+                if s["ok"] or (s["ok"] is None and s["g"] not in winners):
                     back[s["text"]] = s["g"]
             got_ids = []
             bad = None
@@ -321,6 +367,16 @@ def evaluate(plan, obs, k, kind, info):
     q = obs.get("quiescent")
     if q is not None:
         ids = sorted(winners)
+        only_failed = sorted(g for g in failed if g not in winners)
+        if only_failed:
+            # ids whose only stores failed with an injected error may or may not count as stored
+            ftexts = {s["text"] for g in only_failed for s in failed[g]}
+            q = dict(q)
+            if len(ids) <= q["len"] <= len(ids) + len(only_failed):
+                q["len"] = len(ids)
+            q["list"] = [t for t in q["list"] if t not in ftexts]
+            q["contiguous"] = ids == list(range(len(ids)))
+            q["reads"] = {g: (None if (int(g) in only_failed and v in ftexts) else v) for g, v in q["reads"].items()}
         if q["len"] != len(ids):
             viol.append({"class": "wrong-len", "site": "quiescent", "message": f"len()={q['len']} but stored ids={ids}"})
         exp_contig = ids == list(range(len(ids)))
@@ -346,9 +402,9 @@ def evaluate(plan, obs, k, kind, info):
         for fn, content in q["files"].items():
             if content:
                 all_lines.extend(content.split("\n")[:-1] if content.endswith("\n") else content.split("\n"))
-            if content and not content.endswith("\n"):
+            if content and not content.endswith("\n") and not failed and not plan.get("write_fault"):
                 viol.append({"class": "file-content", "site": "unterminated", "message": fn})
-        if sorted(all_lines) != sorted(s["text"] for s in stores if s["ok"]):
+        if not failed and sorted(all_lines) != sorted(s["text"] for s in stores if s["ok"]):
             viol.append({"class": "file-content", "site": "lines",
                          "message": f"files hold {len(all_lines)} lines, expected exactly the {len(winners)} stored texts"})
         if any(c != 0 for c in obs.get("exitcodes", [])):
@@ -406,7 +462,7 @@ class Spec:
         "texts are single-line; is_contiguous() is judged at quiescence only",
         "sampling, not enumeration",
     ]
-    PROBES = ["iteration-over-gap", "torn-write"]
+    PROBES = ["iteration-over-gap", "torn-write", "failed-store"]
     RULE = ("one run = seeded plan (writers, readers, id layout incl. gaps/reversed/pre-sized/duplicates, assignment "
             "of ids to writers, reader and parent scripts, torn writes on/off) plus seeded schedule; non-trivial = two "
             "tasks runnable at once and one pre-emption; distinct = distinct sync-order signature among those runs")
@@ -436,6 +492,9 @@ class Spec:
             ids = plan["ids"]
             if ids != list(range(len(ids))):
                 probes["iteration-over-gap"] = 1
+            hist = obs.get("hist")
+            if hist and any(o.get("kind") == "store" and o.get("ok") is None for o in hist.ops):
+                probes["failed-store"] = 1
             res.update({
                 "digest": k.digest(), "signature": k.signature(), "steps": k.step, "switches": k.switches,
                 "preemptions": k.preemptions, "sync_events": k.sync_events, "max_live": k.max_live,
